@@ -104,8 +104,9 @@ fn check<const STRICT: bool>(pat: &[u8], p: &[u8; 3], plen: usize, v: &[u8; 3], 
             assert!(w.pattern().len() == plen, "stored pattern differs from the source pattern");
             kani::cover!(got && m.stars == 1 && vlen >= 2);
             kani::cover!(!got && m.stars == 0 && plen == vlen && plen > 0);
-            kani::cover!(got && m.stars == 0 && plen == 1 && v[0] != p[0]);
-            kani::cover!(!got && m.stars == 0 && plen == 1 && vlen == 1 && v[0] != p[0] && v[0] == b'a');
+            // case folding is observable only in the case-insensitive flavour
+            kani::cover!(STRICT || plen != 1 || (got && m.stars == 0 && v[0] != p[0]));
+            kani::cover!(!STRICT || plen != 1 || (!got && vlen == 1 && p[0] == b'A' && v[0] == b'a'));
         }
         Err(WildcardError::InvalidWildcard(_)) => assert!(!m.valid, "valid pattern reported invalid"),
         Err(WildcardError::TooManyStarMetacharacters { count, limit: l }) => {
@@ -117,7 +118,8 @@ fn check<const STRICT: bool>(pat: &[u8], p: &[u8; 3], plen: usize, v: &[u8; 3], 
         }
     }
     kani::cover!(res.is_ok());
-    kani::cover!(matches!(res, Err(WildcardError::DoubleStar)));
+    // ** needs two pattern bytes
+    kani::cover!(plen < 2 || matches!(res, Err(WildcardError::DoubleStar)));
     kani::cover!(matches!(res, Err(WildcardError::InvalidWildcard(_))));
     kani::cover!(matches!(res, Err(WildcardError::TooManyStarMetacharacters { .. })));
     std::mem::forget(res);
@@ -176,5 +178,65 @@ fn c11_wildcard_empty() {
     }
     kani::cover!(vlen == 0);
     kani::cover!(vlen == 2);
+    std::mem::forget(res);
+}
+
+/// Validation only (no matching), patterns of exactly 4 bytes over {a,*,\}:
+/// accepted iff the escapes are valid, no two unescaped stars are adjacent and
+/// the number of unescaped stars is within the limit.
+#[kani::proof]
+#[kani::unwind(8)]
+fn c11_wildcard_validate_p4() {
+    let p: [u8; 4] = [kani::any(), kani::any(), kani::any(), kani::any()];
+    kani::assume(p[0] == b'a' || p[0] == b'*' || p[0] == b'\\');
+    kani::assume(p[1] == b'a' || p[1] == b'*' || p[1] == b'\\');
+    kani::assume(p[2] == b'a' || p[2] == b'*' || p[2] == b'\\');
+    kani::assume(p[3] == b'a' || p[3] == b'*' || p[3] == b'\\');
+    let limit: usize = kani::any();
+    // reference scan
+    let mut esc = false;
+    let mut valid = true;
+    let mut stars = 0usize;
+    let mut prev_star = false;
+    let mut dbl = false;
+    let mut i = 0;
+    while i < 4 {
+        let c = p[i];
+        if esc {
+            if !(c == b'*' || c == b'\\') {
+                valid = false;
+            }
+            esc = false;
+            prev_star = false;
+        } else if c == b'\\' {
+            esc = true;
+            prev_star = false;
+        } else if c == b'*' {
+            stars += 1;
+            if prev_star {
+                dbl = true;
+            }
+            prev_star = true;
+        } else {
+            prev_star = false;
+        }
+        i += 1;
+    }
+    if esc {
+        valid = false;
+    }
+    let res = Wildcard::<true>::new(BytesExpr::new(p.to_vec(), BytesFormat::Quoted), limit);
+    match &res {
+        Ok(_) => assert!(valid && stars <= limit && !dbl, "invalid pattern accepted (bad escape, too many stars or **)"),
+        Err(WildcardError::InvalidWildcard(_)) => assert!(!valid, "valid pattern reported invalid"),
+        Err(WildcardError::TooManyStarMetacharacters { count, limit: l }) => {
+            assert!(valid && stars > limit && *count == stars && *l == limit, "star limit error although within the limit")
+        }
+        Err(WildcardError::DoubleStar) => assert!(valid && dbl && stars <= limit, "double star error without **"),
+    }
+    kani::cover!(matches!(res, Err(WildcardError::DoubleStar)) && p[0] == b'a' && p[3] == b'a');
+    kani::cover!(matches!(res, Err(WildcardError::DoubleStar)) && p[0] == b'a' && p[1] == b'a');
+    kani::cover!(res.is_ok() && stars == 2);
+    kani::cover!(res.is_ok() && p[0] == b'\\' && p[1] == b'*' && p[2] == b'*');
     std::mem::forget(res);
 }
